@@ -460,6 +460,9 @@ class Interp(object):
             return h(self, list(args), kwargs)
         if isinstance(fn, type):
             return self.instantiate(fn, args, kwargs)
+        if getattr(fn, "__name__", None) == "providedBy" and hasattr(getattr(fn, "__self__", None), "implementedBy") \
+                and len(args) == 1 and isinstance(args[0], SObj) and isinstance(args[0].cls, type):
+            return bool(fn.__self__.implementedBy(args[0].cls))     # zope.interface on a modelled instance
         if isinstance(fn, types.MethodType):
             # bound method of a real object: python-source methods are interpreted with the real object as self
             f0 = fn.__func__
